@@ -413,8 +413,13 @@ impl<'a> ExprAST<'a> {
     }
 }
 
+// Nesting limit of the parser: bounds the recursion of the parser itself and the depth of the
+// tree it returns (clone, drop, exec, expr and describe all recurse over that tree).
+const MAX_DEPTH: usize = 256;
+
 pub struct Parser<'a> {
     tokenizer: Tokenizer<'a>,
+    depth: usize,
 }
 
 impl<'a> Parser<'a> {
@@ -427,6 +432,7 @@ impl<'a> Parser<'a> {
         tokenizer.next()?;
         Ok(Self {
             tokenizer: tokenizer,
+            depth: 0,
         })
     }
 
@@ -491,7 +497,23 @@ impl<'a> Parser<'a> {
         self.parse_op(0, lhs)
     }
 
+    // every level of nesting in the resulting tree passes through here or through the loop in parse_op
+    fn enter(&mut self) -> Result<()> {
+        self.depth += 1;
+        if self.depth > MAX_DEPTH {
+            return Err(Error::TooDeep);
+        }
+        Ok(())
+    }
+
     fn parse_primary(&mut self) -> Result<ExprAST<'a>> {
+        self.enter()?;
+        let ans = self.parse_primary_inner();
+        self.depth -= 1;
+        ans
+    }
+
+    fn parse_primary_inner(&mut self) -> Result<ExprAST<'a>> {
         let lhs = self.parse_token()?;
         if self.tokenizer.cur_token.is_postfix_op_token() {
             let op = self.tokenizer.cur_token.string();
@@ -501,7 +523,15 @@ impl<'a> Parser<'a> {
         Ok(lhs)
     }
 
-    fn parse_op(&mut self, exec_prec: i32, mut lhs: ExprAST<'a>) -> Result<ExprAST<'a>> {
+    fn parse_op(&mut self, exec_prec: i32, lhs: ExprAST<'a>) -> Result<ExprAST<'a>> {
+        let depth = self.depth;
+        self.enter()?;
+        let ans = self.parse_op_inner(exec_prec, lhs);
+        self.depth = depth;
+        ans
+    }
+
+    fn parse_op_inner(&mut self, exec_prec: i32, mut lhs: ExprAST<'a>) -> Result<ExprAST<'a>> {
         loop {
             if !self.tokenizer.cur_token.is_op_token() {
                 return Ok(lhs);
@@ -517,6 +547,7 @@ impl<'a> Parser<'a> {
                     return Ok(lhs);
                 }
                 self.next()?;
+                self.enter()?;
                 let a = self.parse_expression()?;
                 self.expect(":")?;
                 let b = self.parse_expression()?;
@@ -548,6 +579,7 @@ impl<'a> Parser<'a> {
             if r_bp < cur_l_bp {
                 rhs = self.parse_op(r_bp, rhs)?;
             }
+            self.enter()?;
             lhs = ExprAST::Binary(op, Box::new(lhs), Box::new(rhs));
             if is_not {
                 lhs = ExprAST::Unary("not", Box::new(lhs));
